@@ -88,6 +88,7 @@ def check_adds(ctx, pmi, pmr, rng, seen_i, seen_r):
     rp = pmr.Rpms()
     pool = [FM.gen_source_package(rng, i) for i in range(2)]
     n = 0
+    filed_imgs, filed_ops = [], []
     for arch in arches:
         cls = arch_class(arch)
         want = "accept" if cls == "binary" else "refuse"
@@ -96,6 +97,10 @@ def check_adds(ctx, pmi, pmr, rng, seen_i, seen_r):
         a["subvariant"] = "sv%d" % n
         n += 1
         img = FI.make_image(pmi, im, a)
+        if cls != "binary" and filed_imgs and n % 2 == 0:
+            # the very image OBJECT the manifest accepted under a binary architecture is offered again under this one
+            a, img = filed_imgs[n % len(filed_imgs)]
+            ctx.count("images-add-%s-object-already-filed" % ("source" if cls in ("src", "nosrc", "source") else "unknown"))
         before = images_snapshot(im)
         try:
             im.add("Server", arch, img)
@@ -108,6 +113,7 @@ def check_adds(ctx, pmi, pmr, rng, seen_i, seen_r):
         ctx.count("images-add-" + cls)
         if cls == "binary" and got == "accept":
             seen_i.add(arch)
+            filed_imgs.append((a, img))
         case = {"manifest": "images", "arch": arch, "attrs": a}
         ctx.monitor("add-arch-refusal", fired=got != want)
         if got != want:
@@ -119,6 +125,10 @@ def check_adds(ctx, pmi, pmr, rng, seen_i, seen_r):
                 ctx.violation("refusal-leaves-state", "a refused add changes nothing", case, observed=str(after)[:300], expected=str(before)[:300])
         # rpms
         op = FM.gen_rpms_op(rng, pool)
+        if cls != "binary" and filed_ops and n % 2 == 1:
+            # exactly the call the manifest accepted before, now aimed at this architecture
+            op = json.loads(json.dumps(filed_ops[n % len(filed_ops)]))
+            ctx.count("rpms-add-%s-call-already-accepted" % ("source" if cls in ("src", "nosrc", "source") else "unknown"))
         op["args"]["arch"] = arch
         before = FM.real_state(rp, "rpms")
         try:
@@ -132,6 +142,7 @@ def check_adds(ctx, pmi, pmr, rng, seen_i, seen_r):
         ctx.count("rpms-add-" + cls)
         if cls == "binary" and got == "accept":
             seen_r.add(arch)
+            filed_ops.append(op)
         case = {"manifest": "rpms", "arch": arch, "op": op}
         ctx.monitor("add-arch-refusal", fired=got != want)
         if got != want:
